@@ -158,6 +158,25 @@ pub fn run(rep: &Report) -> serde_json::Value {
             rep.violation("an atom built from a name is written or read back under another name", json!({"name": name.chars().take(40).collect::<String>(), "on_the_wire": on_wire.map(|w| w.short()), "decoded_name_matches": back}));
         }
     }
+    // the other encoder: terms naming 250..600 distinct atoms under a distribution header are either refused (more than the
+    // header can carry) or written so that the independent header reader recovers them
+    for n in [250usize, 254, 255, 256, 257, 300, 512, 600] {
+        for shape in 0..2 {
+            rep.add("evaluations", 1);
+            let atoms: Vec<OwnedTerm> = (0..n).map(|i| atom(&format!("a{}", i))).collect();
+            let t = if shape == 0 { OwnedTerm::Tuple(vec![int(2), OwnedTerm::List(atoms)]) } else { OwnedTerm::Tuple(vec![int(2), map_of(atoms.iter().map(|a| (a.clone(), a.clone())).collect())]) };
+            match erltf::encode_with_dist_header(&t) {
+                Err(_) if n > 255 => {}
+                Err(e) => rep.violation("encode failed for an expressible term", json!({"family": "distribution header", "distinct_atoms": n, "error": e.to_string()})),
+                Ok(bytes) => {
+                    let mut rx = vcore::proto::RxCache::default();
+                    let ok = vcore::proto::read_dist_header_msg(&bytes, &mut rx).map(|m| exact_eq(&m.control, &denote(&t))).unwrap_or(false);
+                    let own = { let mut c = erltf::AtomCache::new(); erltf::decode_with_atom_cache(&bytes, &mut c).map(|(c, _)| exact_eq(&denote(&c), &denote(&t))).unwrap_or(false) };
+                    if !ok || !own { rep.violation("independent reader sees a different value", json!({"family": "distribution header", "distinct_atoms": n, "independent_reader_ok": ok, "own_decoder_ok": own, "first_bytes": hex(&bytes[..bytes.len().min(24)])})); }
+                }
+            }
+        }
+    }
     let cx = Ctx { rep, seen: Mutex::new(HashSet::new()) };
     let thorough = rep.thorough();
     let l1 = leaves_full(thorough);
